@@ -193,7 +193,7 @@ Proof.
       cbn [Ske]. rewrite B. exact K1. }
     destruct (lookup_var x (m_scopes m)) as [fv|] eqn:El; [cbn [bind]|unfold rt_err, fail_here, unexpected_at; destruct (stmt_at code (m_pc m)); exact I].
     pose proof (lookup_ok code _ _ _ _ (w_sc code m Hm) El) as Hfv.
-    destruct fv; try exact I. simpl in Hfv.
+    destruct fv; try exact I. simpl in Hfv. destruct Hfv as [Hfv _].
     pose proof (bind_args_ok code ev Pev params args [] m Hm Hargs ltac:(constructor)) as P1.
     pose proof (bind_args_skel ev Pev Sev params args [] m Hm Hargs) as K1.
     destruct (bind_args ev params args [] m) as [[env m1]| | |]; cbn [bind]; try exact I. cbn [post Ske fst snd] in P1, K1.
